@@ -49,9 +49,21 @@ def seed_table():
     return "\n".join(out)
 
 
+def rules_table():
+    import sys
+    sys.path.insert(0, os.path.join(V, "rules"))
+    import registry
+    ids = [json.loads(l)["id"] for l in open(os.path.join(V, "properties.jsonl"))]
+    out = ["| id | rules (rule id : floor on examined instances) |", "|---|---|"]
+    for pid in ids:
+        rs = registry.rules_for(pid)
+        out.append("| %s | %s |" % (pid, ", ".join("%s:%d" % (rid, floor) for rid, _, floor in rs) if rs else "— not applicable"))
+    return "\n".join(out)
+
+
 p = os.path.join(V, "DESIGN.md")
 s = open(p).read()
-for name, gen in (("fixed", fixed_table), ("known", known_table), ("seeds", seed_table)):
+for name, gen in (("fixed", fixed_table), ("known", known_table), ("seeds", seed_table), ("rules", rules_table)):
     a, b = "<!-- GEN:%s -->" % name, "<!-- /GEN:%s -->" % name
     if a in s and b in s:
         s = s[:s.index(a) + len(a)] + "\n" + gen() + "\n" + s[s.index(b):]
